@@ -119,6 +119,12 @@ func runC18(raw json.RawMessage, w *Writer) {
 			_ = x.Unmarshal(b)
 			est = x.Estimate(recv)
 		})
-		w.Emit(Ev{"ev": "estimate", "send": c.Send, "delay": c.Delay, "res": r, "est": instJ(est)})
+		// the same on the value the constructor hands out (no wire round trip: its Timestamp carries more than 24 bits)
+		var direct time.Time
+		rd, _ := guard(func() { direct = rtp.NewAbsSendTimeExtension(send).Estimate(recv) })
+		if rd != "ok" {
+			r = rd
+		}
+		w.Emit(Ev{"ev": "estimate", "send": c.Send, "delay": c.Delay, "res": r, "est": instJ(est), "est_direct": instJ(direct)})
 	}
 }
